@@ -3676,6 +3676,14 @@ class Graph(_protocols.GraphProtocol, Sequence[Node], _display.PrettyPrintable):
         for value in self.initializers.values():
             self._name_authority.register_or_name_value(value)
 
+    def _check_nodes_can_be_added(self, nodes: Iterable[Node]) -> None:
+        """Check that no node belongs to another graph, without modifying anything."""
+        for node in nodes:
+            if node.graph is not None and node.graph is not self:
+                raise ValueError(
+                    f"The node '{node!r}' belongs to another graph. Please remove it first with Graph.remove()."
+                )
+
     def _set_node_graph_to_self_and_assign_names(self, node: Node) -> Node:
         """Set the graph reference for the node and assign names to it and its outputs if they don't have one."""
         if node.graph is not None and node.graph is not self:
@@ -3833,6 +3841,9 @@ class Graph(_protocols.GraphProtocol, Sequence[Node], _display.PrettyPrintable):
         Raises:
             ValueError: If any node belongs to another graph.
         """
+        nodes = tuple(nodes)
+        # Perform all checks before modifying any node
+        self._check_nodes_can_be_added(nodes)
         nodes = [self._set_node_graph_to_self_and_assign_names(node) for node in nodes]
         self._nodes.extend(nodes)
 
@@ -3890,6 +3901,11 @@ class Graph(_protocols.GraphProtocol, Sequence[Node], _display.PrettyPrintable):
         """
         if isinstance(new_nodes, Node):
             new_nodes = (new_nodes,)
+        new_nodes = tuple(new_nodes)
+        # Perform all checks before modifying any node
+        if node.graph is not self:
+            raise ValueError(f"The node '{node!r}' does not belong to this graph.")
+        self._check_nodes_can_be_added(new_nodes)
         new_nodes = [self._set_node_graph_to_self_and_assign_names(node) for node in new_nodes]
         self._nodes.insert_after(node, new_nodes)
 
@@ -3907,6 +3923,11 @@ class Graph(_protocols.GraphProtocol, Sequence[Node], _display.PrettyPrintable):
         """
         if isinstance(new_nodes, Node):
             new_nodes = (new_nodes,)
+        new_nodes = tuple(new_nodes)
+        # Perform all checks before modifying any node
+        if node.graph is not self:
+            raise ValueError(f"The node '{node!r}' does not belong to this graph.")
+        self._check_nodes_can_be_added(new_nodes)
         new_nodes = [self._set_node_graph_to_self_and_assign_names(node) for node in new_nodes]
         self._nodes.insert_before(node, new_nodes)
 
